@@ -179,10 +179,10 @@ func (e *Explorer) report(x *Exec) {
 	ch := chosen(x)
 	// replay 5x: must reproduce the same verdict and observation log
 	same := 0
-	if x.Verdict == "race" {
+	if x.Verdict == "race" || x.NoReplay {
 		same = 5 // not replayable in-process: the detector deduplicates reports; the schedule is kept for a fresh process
 	}
-	for i := 0; i < 5 && x.Verdict != "race"; i++ {
+	for i := 0; i < 5 && x.Verdict != "race" && !x.NoReplay; i++ {
 		y := Run(ch, e.Horizon, e.Body)
 		if e.PostRun != nil {
 			e.PostRun(y)
